@@ -322,6 +322,21 @@ def gen_module(rng):
 
 
 # ---------------------------------------------------------------------------
+# At most MAX_PER_CATEGORY violations are written out per category; the rest is counted.
+
+MAX_PER_CATEGORY = 3
+_reported = {}
+
+
+def may_report(ctx, category):
+    _reported[category] = _reported.get(category, 0) + 1
+    if _reported[category] > MAX_PER_CATEGORY:
+        ctx.count('violations-not-listed:' + category)
+        return False
+    return True
+
+
+# ---------------------------------------------------------------------------
 # Running the library
 
 def _parse_job(text):
@@ -360,7 +375,7 @@ def outcome_code(out, alphabet, length):
     b = len(alphabet) + 1
     if out[0] == 'ok':
         if len(out[1]) != length:
-            return -2
+            return b ** length + 6000
         code = 0
         for k, ch in enumerate(out[1]):
             code += (alphabet.index(ch) if ch in alphabet else len(alphabet)) * b ** k
@@ -369,7 +384,7 @@ def outcome_code(out, alphabet, length):
         return b ** length + out[1]
     if out[0] == 'block':
         return b ** length + 1000 + out[1]
-    return -1
+    return b ** length + 5000      # a foreign exception: matches no model outcome
 
 
 def parse_error_line(msg):
@@ -436,15 +451,22 @@ def report_scan_mismatches(ctx, name, strings):
                       dict(kind='corr-scan', text=s, impl=repr(impl), model=repr(fixed), model_unrepaired=repr(orig)))
 
 
-FP_P1 = 2 ** 61 - 1
-FP_P2 = 2 ** 89 - 1
+FP_P1 = 2 ** 31 - 1
+FP_P2 = 2 ** 61 - 1
+
+
+def _fold(k, x):
+    p = (1 << k) - 1
+    y = (x & p) + (x >> k)
+    return (y & p) + (y >> k)
 
 
 def fp_fold(codes, r1, r2):
+    """The same function as Lex/Comments.v [fp_step] folded over the codes."""
     a1 = a2 = 0
     for c in codes:
-        a1 = (a1 * r1 + c + 1) % FP_P1
-        a2 = (a2 * r2 + c + 1) % FP_P2
+        a1 = _fold(31, a1 * r1 + c + 1)
+        a2 = _fold(61, a2 * r2 + c + 1)
     return (a1, a2)
 
 
@@ -549,7 +571,7 @@ def corr_random(ctx, n, block=100):
     bad_blocks = []
     for (alphabet, tag, idx, blocks), fps in zip(jobs, results):
         for (x0, cases), fp in zip(blocks, fps):
-            if tuple(fp) != fp_fold([c[2] for c in cases], r1, r2):
+            if tuple(fp) != fp_fold([c[2] % FP_P2 for c in cases], r1, r2):
                 bad_blocks.append((alphabet, x0, cases))
     bad = []
     for alphabet, x0, cases in bad_blocks[:3]:
@@ -677,7 +699,7 @@ def pt_scanner(ctx, name, text):
     got = impl_outcome(text)
     want = ('ok', spec_blank(text, comments))
     ctx.evaluations += 1
-    if got != want:
+    if got != want and may_report(ctx, 'pt-scan'):
         k = next((i for i, (x, y) in enumerate(zip(got[1], want[1])) if x != y), None) if got[0] == 'ok' else None
         ctx.violation('ignore_comments differs from X.680 blanking on %s%s' % (
             name, '' if k is None else ' at offset %d (line %d): %r vs %r' % (
@@ -743,7 +765,7 @@ def pt_relayout(ctx, sources, variants):
                                                 tokens=len(tokens), new_len=len(new)))
         ctx.count('pt:relayout:%s' % mode)
         ctx.count('pt:relayout:multi-word-keyword-heads', kws)
-        if r != b:
+        if r != b and may_report(ctx, 'pt-relayout:' + ('corpus' if name.startswith('tests') else 'generated')):
             gaps, small = shrink_layout(ctx, text, tokens, seed, mode, b)
             detail = ''
             rep = dict(kind='pt-relayout', name=name, mode=mode, seed=seed,
@@ -768,10 +790,11 @@ ERROR_TOKENS = ['::=', '}', ')', 'BEGIN', ',', '"oops"']
 
 def pt_error_lines(ctx, sources, per_source):
     """A syntax error injected at a known token is reported with the line of that token, whatever comments and
-    newlines precede it.  Differential: the reference layout (no comment before the error) fixes which token the
-    error is reported at."""
+    newlines precede it.  Differential: the reference layout (comments removed) fixes the offset the error is
+    reported at relative to the tokens; the layout is then changed everywhere before that place."""
     import random
     rng = ctx.rng
+    cands = []
     for name, text in sources:
         try:
             tokens, _, stray = scan(text)
@@ -789,47 +812,45 @@ def pt_error_lines(ctx, sources, per_source):
             except LexError:
                 continue
             ref, rstarts = relayout(broken, btoks, random.Random(1), 'strip')
-            r0 = lib.attempt(asn1tools.parse_string, ref)
-            if r0[0] != 'err' or r0[1] != 'parse':
-                ctx.count('pt:errline:not-an-error')
-                continue
-            m = re.search(r'at line (\d+), column (\d+)', r0[2])
-            if not m:
-                ctx.count('pt:errline:no-position')
-                continue
-            line0, col0 = int(m.group(1)), int(m.group(2))
-            lines = ref.split('\n')
-            off0 = sum(len(x) + 1 for x in lines[:line0 - 1]) + col0 - 1
-            # the token the error is reported at: the first token that starts at or after the offset
-            e = next((i for i, s in enumerate(rstarts) if s >= off0), None)
-            if e is None:
-                ctx.count('pt:errline:at-end')
-                continue
-            seed = rng.randrange(1, 2 ** 31)
-            # layout changes only strictly before the reported token, and not in the gap right before it
-            new, starts = relayout(ref, [(t[0], s, s + (t[2] - t[1])) for t, s in zip(btoks, rstarts)],
-                                   random.Random(seed), 'dense', only=set(range(0, e)))
-            want = new.count('\n', 0, starts[e]) + 1
-            r = lib.attempt(asn1tools.parse_string, new)
-            got = parse_error_line(r[2]) if r[0] == 'err' and r[1] == 'parse' else None
-            ctx.case(('errline', name, k, bogus), dict(kind='pt-errline', name=name, token=k, bogus=bogus, line=want))
-            ctx.count('pt:errline:%s' % ('lines-before' if want > line0 else 'same-line'))
-            if got != want:
-                ctx.violation('syntax error at line %d of the text is reported as %s (%s)' % (
-                    want, 'line %r' % got if got else 'no ParseError', (r[2] if r[0] == 'err' else 'parsed')[:200]),
-                    dict(kind='pt-errline', text=new if len(new) < 4000 else new[:starts[e] + 200], line=want,
-                         reported=got, name=name))
+            cands.append((name, k, bogus, btoks, ref, rstarts))
+    refs = parse_many(ctx, [c[4] for c in cands])
+    jobs = []
+    for (name, k, bogus, btoks, ref, rstarts), r0 in zip(cands, refs):
+        if r0[0] != 'err' or r0[1] != 'parse':
+            ctx.count('pt:errline:not-an-error')
+            continue
+        m = re.search(r'at line (\d+), column (\d+)', r0[2])
+        if not m:
+            ctx.count('pt:errline:no-position')
+            continue
+        line0, col0 = int(m.group(1)), int(m.group(2))
+        lines = ref.split('\n')
+        off0 = sum(len(x) + 1 for x in lines[:line0 - 1]) + col0 - 1
+        # the error is reported in the gap before, or at the start of, token e
+        e = next((i for i, s in enumerate(rstarts) if s >= off0), None)
+        if e is None:
+            ctx.count('pt:errline:at-end')
+            continue
+        seed = rng.randrange(1, 2 ** 31)
+        rtoks = [(t[0], s, s + (t[2] - t[1])) for t, s in zip(btoks, rstarts)]
+        new, starts = relayout(ref, rtoks, random.Random(seed), 'dense', only=set(range(0, e)))
+        off = starts[e] - (rstarts[e] - off0)          # the gap before token e is unchanged
+        want = new.count('\n', 0, off) + 1
+        jobs.append((name, k, bogus, new, want, line0))
     # the line in the message of the ENUMERATED parse action
     for _ in range(per_source * 2):
         pre = ''.join(random_piece(rng) for _ in range(rng.randrange(1, 6)))
         text = 'M DEFINITIONS ::= BEGIN%s\nE ::= ENUMERATED { a(0), b(0) }\nEND\n' % _join_piece('N', pre)
-        want = text.count('\n', 0, text.index('E ::=')) + 1
-        r = lib.attempt(asn1tools.parse_string, text)
-        got = parse_error_line(r[2]) if r[0] == 'err' else None
-        ctx.case(('errline-enum', want))
-        if got != want:
-            ctx.violation('Duplicated ENUMERATED number at line %d reported as %r' % (want, r[1:]),
-                          dict(kind='pt-errline', text=text, line=want, reported=got, name='enum'))
+        jobs.append(('enum', 0, 'duplicated number', text, text.count('\n', 0, text.index('E ::=')) + 1, 1))
+    results = parse_many(ctx, [j[3] for j in jobs])
+    for (name, k, bogus, new, want, line0), r in zip(jobs, results):
+        got = parse_error_line(r[2]) if r[0] == 'err' and r[1] == 'parse' else None
+        ctx.case(('errline', name, k, bogus), dict(kind='pt-errline', name=name, token=k, bogus=bogus, line=want))
+        ctx.count('pt:errline:%s' % ('lines-inserted-before' if want > line0 else 'same-line'))
+        if got != want and may_report(ctx, 'pt-errline'):
+            ctx.violation('syntax error at line %d of the text is reported as %s (%s)' % (
+                want, 'line %r' % got if got else 'no ParseError', (r[2] if r[0] == 'err' else 'parsed')[:200]),
+                dict(kind='pt-errline', text=new if len(new) < 6000 else None, line=want, reported=got, name=name))
 
 
 # ---------------------------------------------------------------------------
@@ -902,6 +923,7 @@ def run(ctx):
     # 2. theorems
     ok = ctx.coq_props()
     # 3. witnesses, known findings
+    ctx.log('theorems %s' % ('checked' if ok else 'NOT checked'))
     witnesses(ctx)
     known_findings(ctx)
     # 4. correspondence
@@ -909,15 +931,15 @@ def run(ctx):
     corr_random(ctx, 500 if ctx.quick else 5000)
     # 5. property tests
     corpus = corpus_files(ctx)
-    if ctx.quick:
-        corpus_pt = [(n, t) for n, t in corpus if len(t) < 150000]
-    else:
-        corpus_pt = corpus
-    gen = [('generated-%d' % i, gen_module(ctx.rng)) for i in range(40 if ctx.quick else 400)]
+    corpus_pt = [(n, t) for n, t in corpus if len(t) < 60000] if ctx.quick else corpus
+    gen = [('generated-%d' % i, gen_module(ctx.rng)) for i in range(30 if ctx.quick else 400)]
     pt_relayout(ctx, corpus_pt, ['strip', 'dense'] if ctx.quick else ['strip', 'dense', 'dense', 'sparse', 'dense'])
+    ctx.log('relayout of %d fixture files done' % len(corpus_pt))
     pt_relayout(ctx, gen, ['strip', 'dense', 'dense'] if ctx.quick else ['strip', 'dense', 'dense', 'dense', 'sparse'])
+    ctx.log('relayout of %d generated modules done' % len(gen))
     small = [(n, t) for n, t in corpus if len(t) < 6000]
     pt_error_lines(ctx, gen[:12 if ctx.quick else 150] + small[:6 if ctx.quick else 40], 2 if ctx.quick else 4)
+    ctx.log('error lines done')
     if _pool is not None:
         _pool.close()
     if not ok:
